@@ -3,11 +3,15 @@ class IbProtocolEntity(ProtocolEntity):
     '''
     <ib></ib>
     '''
-    def __init__(self):
+    def __init__(self, _from = None):
         super(IbProtocolEntity, self).__init__("ib")
+        self._from = _from
     
     def toProtocolTreeNode(self):
-        return self._createProtocolTreeNode({}, None, None)
+        attribs = {}
+        if getattr(self, "_from", None) is not None:
+            attribs["from"] = self._from
+        return self._createProtocolTreeNode(attribs, None, None)
 
     def __str__(self):
         out  = "Ib:\n"
@@ -15,4 +19,4 @@ class IbProtocolEntity(ProtocolEntity):
 
     @staticmethod
     def fromProtocolTreeNode(node):
-        return IbProtocolEntity()
+        return IbProtocolEntity(node["from"])
